@@ -1,11 +1,49 @@
-//! C17 -- not built yet (stub so the crate layout is stable).
+//! C17 -- wake-ups and signals are never lost and the tty is restored on every exit path.
+//!
+//! Same explorer and kernel model as C16(b) (prop/term_common.rs); additionally environment
+//! events (waker calls, SIGWINCH, SIGTERM, input chunks, hang-up) may land at ANY system-call
+//! boundary of the poll loop (each costs one deviation), and the terminal object is released at
+//! every crash point (after every prefix of every session).
+use super::term_common::{self as tc, Focus};
 use crate::engine::report::{Ctx, Report};
-use serde_json::Value;
+use crate::engine::workers::WorkerCtx;
+use serde_json::{json, Value};
 
-pub fn run(_ctx: &Ctx) -> Result<Report, String> {
-    Err("C17: check not built yet".into())
+pub fn worker(ctx: &Ctx, wc: WorkerCtx, _extra: &[String]) {
+    super::c16::worker_for(Focus::C17, ctx, wc)
 }
 
-pub fn replay(_w: &Value) -> Result<(bool, String), String> {
-    Err("C17: check not built yet".into())
+pub fn run(ctx: &Ctx) -> Result<Report, String> {
+    let merged = super::c16::run_terminal(ctx, Focus::C17, "C17")?;
+    let c = |k: &str| merged.counters.get(k).copied().unwrap_or(0);
+    let mut r = Report::new("fault_enumeration");
+    let units = merged.notes.get("unit").cloned().unwrap_or_default();
+    r.set("evaluations", c("executions"))
+        .set("distinct_nontrivial", c("distinct_outcomes"))
+        .set(
+            "rule",
+            "an evaluation is one complete execution of a scripted session of the real UnixTerminal on a pty under one schedule of environment answers \
+             (kernel answers and injected wake / SIGWINCH / SIGTERM / input / hang-up events at system-call boundaries), all schedules with at most \
+             the stated number of deviations, for every crash point; distinct_nontrivial = sum over (session, crash point) of distinct observable \
+             outcomes (bytes received by the tty, events returned, termios restored)",
+        )
+        .set("counters", json!(merged.counters))
+        .set("units", json!(units.clone()))
+        .set("exhaustive", !merged.capped && c("capped_units") == 0)
+        .set("capped", merged.capped || c("capped_units") > 0)
+        .set("samples", json!(units.into_iter().take(4).collect::<Vec<_>>()));
+    r.assume("kernel model of the H2 seam (see C16); a waker call is one atomic non-blocking write, so 'another thread called it between system calls i and i+1' is all there is to enumerate");
+    r.assume("signals are raised synchronously on the polling thread (raise), which is the self-pipe's view of asynchronous delivery");
+    r.assume("fairness: the peer keeps draining and answers DA1, so the closing sequence can be delivered within dispose's own time budget");
+    r.assume("order between events of different sources arriving within one select round is not judged (the kernel does not define it)");
+    r.violations = merged.violations;
+    Ok(r)
+}
+
+pub fn replay(w: &Value) -> Result<(bool, String), String> {
+    match w["kind"].as_str() {
+        Some("session") => tc::replay_session(w),
+        Some("session-unit") => super::c16::replay(w),
+        _ => Err("unknown witness kind".into()),
+    }
 }
